@@ -70,16 +70,18 @@ pub struct WOut {
     pub failed_call: Option<&'static str>,
     /// after an earlier API call had failed the caller still finished / closed the writer, and that call returned Ok
     pub finish_ok_after_error: bool,
+    /// rows of the batches whose write() had returned Ok when the first call failed
+    pub acked_rows: usize,
     /// raised by the simulator itself while driving the writer (lost wake-up, step budget)
     pub sim_violation: Option<simcore::Violation>,
 }
 
 impl WOut {
     pub fn ok() -> Self {
-        WOut { api_ok: true, first_err: None, failed_call: None, finish_ok_after_error: false, sim_violation: None }
+        WOut { api_ok: true, first_err: None, failed_call: None, finish_ok_after_error: false, acked_rows: 0, sim_violation: None }
     }
     pub fn fail(call: &'static str, e: impl std::fmt::Display) -> Self {
-        WOut { api_ok: false, first_err: Some(e.to_string()), failed_call: Some(call), finish_ok_after_error: false, sim_violation: None }
+        WOut { api_ok: false, first_err: Some(e.to_string()), failed_call: Some(call), finish_ok_after_error: false, acked_rows: 0, sim_violation: None }
     }
 }
 
